@@ -243,6 +243,6 @@ def jobs(tier):
         for n1 in n1s:
             js.append(dict(name=f'H14:assign:{layout}:n[{a},{b}]:{"3v" if tv else "2v"}:N1={n1}', fn='h_assign',
                            params=dict(layout=layout, nmin=a, nmax=b, three_valued=tv, n_first=n1, **opts),
-                           budget_s=200 if tier == 'quick' else 1500, witness_every=7,
+                           budget_s=200 if tier == 'quick' else 600, witness_every=7,
                            cost=(3 if tv else 2) ** (b - a) * (1 if layout.startswith('single') else 50)))
     return js
